@@ -414,4 +414,14 @@ def deliverPurge (lower : String → String) (order : List Nat → List Nat) (c 
   deliverPurgeWith Gen.Cache.updates_iterates_copy Gen.Cache.complete_iterates_copy Gen.Cache.remove_listener_catches_keyerror
     lower order c ls now react1 react2
 
+/-- `async_updates(now, records)` hands the **one object** `records` to every listener of the round.  If it is a list (`isList`:
+generated leaves `purge_updates_is_list`, `add_listener_purge_updates_is_list`) the `k`-th listener iterates the pairs like every
+other; if it were a generator expression the first listener's iteration would exhaust it and every later one would be told nothing. -/
+def toldAt (isList : Bool) (pairs : List (Rec × Option Rec)) (k : Nat) : List (Rec × Option Rec) :=
+  if isList || k == 0 then pairs else []
+
+/-- what listener `l` is handed in round 1 of a purge (`none` = not called) -/
+def PurgeDelivery.told (d : PurgeDelivery) (isList : Bool) (l : Nat) : Option (List (Rec × Option Rec)) :=
+  if d.round1.contains l then some (toldAt isList d.pairs (d.round1.idxOf l)) else none
+
 end Zc
